@@ -33,6 +33,8 @@ for pid in sorted(mkmanifest.CHECKS):
               if m.startswith("DeapModel.Lemmas.") or m == "DeapModel.Props." + pid]
     src = lib.strip_lean_comments(open(os.path.join(lib.LEAN, "DeapModel", "Props", pid + ".lean")).read())
     stmts = re.findall(r"^\s*def\s+([\w.']+_Statement)\b", src, re.M)
+    proved = set(n.split(".", 1)[1] for n in lib.theorem_names(pid))
+    stmts = [x for x in stmts if x[:-len("_Statement")] not in proved]      # a def …_Statement proved by theorem …
     partials = [n.split(".", 1)[1] for n in lib.theorem_names(pid) if n.endswith("_partial")]
     try:
         ev = json.load(open(os.path.join(VERIF, "evidence", pid + ".json")))
